@@ -299,3 +299,24 @@ def fstringb_lines(rng, n, maxlen=10):
 def fstringb_text(lines, final_newline=True):
     t = '\n'.join(''.join(FSTRINGB_LEX[x] for x in ln) for ln in lines)
     return t + ('\n' if final_newline else '')
+
+
+SPLIT_STATEMENTS = [
+    'x: int', 'x: int = 1', 'self.value: int', 'x = 1 + 2', 'x += 1', 'f(a, b=1)', 'return x', 'import os', 'from a import b',
+    'assert x, y', 'del x, y', 'raise E from e', 'x = a if b else c', 'lambda a: a', 'x = [1, 2]', 'x = {1: 2}', 'not x',
+    'a.b.c = 1', 'x = y = 1', 'with a as b: pass', 'for i in x: pass', 'if a: pass', 'while a: pass', 'def f(a: int) -> int: pass',
+    'class C(B): pass', 'global a', 'x = yield', 'await x', 'print(f"{a}")', 'x = a[1:2]', '@dec\ndef f(): pass',
+]
+
+
+def backslash_splits():
+    """every statement of SPLIT_STATEMENTS with a backslash continuation (+ indented next line) inserted at every blank
+    between two tokens, at module level and inside a function body"""
+    out = []
+    for st in SPLIT_STATEMENTS:
+        idx = [i for i, c in enumerate(st) if c == ' ']
+        for i in idx:
+            v = st[:i] + ' \\\n    ' + st[i + 1:]
+            out.append(v + '\n')
+            out.append('def outer(self):\n    ' + v.replace('\n', '\n    ') + '\n')
+    return out
